@@ -400,7 +400,10 @@ Print Assumptions C05_merged_levels.
    (rebuild_names <- SchemaLoaderWiki._read_schema).  If a merged save lists the tags parents-first -- every tag
    directly behind its parent or a node of its parent's subtree -- every long name comes back intact; the levels
    are the depths (C05_merged_levels) and the order is that of the entry list (C05_merged_emits_all_once).
-   Whether the entry list IS parents-first is a property of HedSchemaTagSection._finalize_section, not modelled:
+   Whether the entry list IS parents-first is a property of HedSchemaTagSection._finalize_section, not modelled --
+   TESTED ONLY, for schemas loaded from files and for schemas edited in memory (nodes added to the loaded object below
+   the first / a middle / the last subtree of every top-level tree): harness clause wiki-independent-listing reads the
+   saved MediaWiki text with an independent line reader and requires every tag under its own parent:
    it is tested end-to-end, and it was FALSE of the code before fix commit f2636f2 for a library node rooted in a top-level tree
    that does not allow extensions (the repaired finding C05-F7; the _refuted statement below records its shape, it is not about the current code). *)
 Theorem C05_wiki_names_rebuilt : forall names : list tname,
